@@ -1051,6 +1051,122 @@ pub fn run_c10(ctx: &Ctx) -> i32 {
             out.violation("C10|history-dependent|stream", format!("Tukey alpha {a1} (block {b1}) then alpha {a2} (block {b2}) on one thread gives different bytes than alpha {a2} alone"), rpj(ctx, "pairs", idx, json!({"alpha_first": a1, "alpha_second": a2, "blocks": [b1, b2], "signal": a.recipe})));
         }
     });
+    // one knob: the SAME single-block input encoded twice on one thread under two configurations
+    // that differ in exactly one field (every field in turn). The last block encoded by the first
+    // call is sample for sample the first block of the second, so anything remembered per thread
+    // under a key that leaves that field out (a memo of the last subframe, a cached window, a
+    // cached parameter search) answers the second call with the first call's result.
+    let n = ctx.tier.pick(1200, 40_000);
+    run_cases(ctx, "oneknob", n, &mut out, |idx, out| {
+        let mut rng = Rng::for_case(ctx.seed, "C10.oneknob", idx);
+        let bps = *rng.pick(&[8usize, 16, 16, 24]);
+        let block = *rng.pick(&[64usize, 192, 1024, 4096]);
+        let channels = if rng.chance(1, 3) { 2 } else { 1 };
+        let fam = *rng.pick(&["sine_noise", "sine_loud_noise", "sine", "laplace"]);
+        let a = Arc::new(gen::gen_audio_family(&mut rng, channels, bps, 44100, block, fam));
+        let mut base = gen::gen_config(&mut rng, &gen::ConfigOpts { multithread: Some(false), ..Default::default() });
+        base.multithread = false;
+        base.block_size = block;
+        if rng.flip() {
+            // make the window matter: prediction by LPC only
+            base.subframe_coding.use_fixed = false;
+            base.subframe_coding.use_lpc = true;
+        }
+        let mut other = base.clone();
+        let knob = idx % 14;
+        let name;
+        {
+            let sf = &mut other.subframe_coding;
+            match knob {
+                0 => {
+                    name = "qlpc.window (kind)";
+                    sf.qlpc.window = match sf.qlpc.window {
+                        Window::Rectangle => Window::Tukey { alpha: 0.4 },
+                        _ => Window::Rectangle,
+                    };
+                }
+                1 => {
+                    name = "qlpc.window.alpha";
+                    sf.qlpc.window = match sf.qlpc.window {
+                        Window::Tukey { alpha } if alpha < 0.5 => Window::Tukey { alpha: alpha + 0.37 },
+                        Window::Tukey { alpha } => Window::Tukey { alpha: alpha - 0.37 },
+                        _ => Window::Tukey { alpha: 1.0 },
+                    };
+                    if matches!(base.subframe_coding.qlpc.window, Window::Rectangle) {
+                        base.subframe_coding.qlpc.window = Window::Tukey { alpha: 0.25 };
+                    }
+                }
+                2 => {
+                    name = "fixed.order_sel (kind)";
+                    sf.fixed.order_sel = match sf.fixed.order_sel {
+                        config::OrderSel::BitCount => config::OrderSel::ApproxEnt { partitions: 16 },
+                        _ => config::OrderSel::BitCount,
+                    };
+                }
+                3 => {
+                    name = "fixed.order_sel.partitions";
+                    base.subframe_coding.fixed.order_sel = config::OrderSel::ApproxEnt { partitions: 1 };
+                    sf.fixed.order_sel = config::OrderSel::ApproxEnt { partitions: 64 };
+                }
+                4 => {
+                    name = "fixed.max_order";
+                    sf.fixed.max_order = (sf.fixed.max_order + 1 + rng.usize_below(4)) % 5;
+                }
+                5 => {
+                    name = "qlpc.lpc_order";
+                    sf.qlpc.lpc_order = 1 + (sf.qlpc.lpc_order + rng.usize_below(23)) % 24;
+                }
+                6 => {
+                    name = "qlpc.quant_precision";
+                    sf.qlpc.quant_precision = 1 + (sf.qlpc.quant_precision + rng.usize_below(14)) % 15;
+                }
+                7 => {
+                    name = "prc.max_parameter";
+                    sf.prc.max_parameter = (sf.prc.max_parameter + 1 + rng.usize_below(14)) % 15;
+                }
+                8 => {
+                    name = "use_constant";
+                    sf.use_constant = !sf.use_constant;
+                }
+                9 => {
+                    name = "use_fixed";
+                    sf.use_fixed = !sf.use_fixed;
+                }
+                10 => {
+                    name = "use_lpc";
+                    sf.use_lpc = !sf.use_lpc;
+                }
+                11 => {
+                    name = "stereo_coding.use_midside";
+                    other.stereo_coding.use_midside = !other.stereo_coding.use_midside;
+                }
+                12 => {
+                    name = "stereo_coding.use_leftside";
+                    other.stereo_coding.use_leftside = !other.stereo_coding.use_leftside;
+                }
+                _ => {
+                    name = "stereo_coding.use_rightside";
+                    other.stereo_coding.use_rightside = !other.stereo_coding.use_rightside;
+                }
+            }
+        }
+        let mk = |cfg: &config::Encoder| Case { audio: Arc::clone(&a), cfg: cfg.clone(), block, mode: FillMode::Int, hint: true };
+        // stream level, then frame level (the frame-level entry point shares the per-thread state)
+        let (first, second) = if idx % 3 == 2 { (Call::Frame(mk(&base), 0), Call::Frame(mk(&other), 0)) } else { (Call::Stream(mk(&base)), Call::Stream(mk(&other))) };
+        let r1 = first.exec();
+        let got = second.exec();
+        let want = fresh_result(&cache, &second);
+        out.evaluations += 1;
+        out.count(&format!("oneknob_{}", name.replace([' ', '(', ')'], "")));
+        if r1 != got {
+            // only pairs whose two results really differ can show a stale answer
+            out.distinct.insert(prng::hash_str(&format!("{name}/{}/{}", gen::describe_config(&base), a.recipe)) ^ prng::hash_i32s(&a.samples));
+            out.count("oneknob_pairs_with_different_results");
+        }
+        if got != *want {
+            out.violation(if idx % 3 == 2 { "C10|history-dependent|frame" } else { "C10|history-dependent|stream" }, format!("the same block encoded under a configuration that differs only in `{name}` right after the other one on the same thread gives different bytes than alone on a fresh thread"), rpj(ctx, "oneknob", idx, json!({"knob": name, "first": gen::describe_config(&base), "second": gen::describe_config(&other), "signal": a.recipe, "channels": channels, "bps": bps, "block": block})));
+        }
+    });
     // many distinct block lengths (and window parameters) on one thread: per-thread caches keyed
     // by length grow, get evicted or collide; lengths decrease, increase or shuffle
     let n = ctx.tier.pick(12, 300);
